@@ -1513,28 +1513,15 @@ class TT():
 
             result = torchtt._extras.reshape(self, shape_new, eps, rmax)
         else:
+            shape_new = []
             for core in self.cores:
                 if mode_size**int(round(math.log(core.shape[1], mode_size))) != core.shape[1]:
                     raise ShapeMismatch('Reshaping error: check if the dimensions are powers of the desired mode size:\r\ncore size '+str(
                         list(core.shape))+' cannot be reshaped.')
-                if int(math.log(core.shape[1], mode_size)) > 1:
-                    Nnew = [core.shape[0]*mode_size]+[mode_size] * \
-                        (int(
-                            math.log(core.shape[1], mode_size))-2)+[core.shape[2]*mode_size]
-                    try:
-                        core = tn.reshape(core, Nnew)
-                    except:
-                        raise ShapeMismatch('Reshaping error: check if the dimensions care powers of the desired mode size:\r\ncore size '+str(
-                            list(core.shape))+' cannot be reshaped to '+str(Nnew))
-                    cores, _ = to_tt(core, Nnew, eps, rmax, is_sparse=False)
-                    cores_new.append(tn.reshape(
-                        cores[0], [-1, mode_size, cores[0].shape[-1]]))
-                    cores_new += cores[1:-1]
-                    cores_new.append(tn.reshape(
-                        cores[-1], [cores[-1].shape[0], mode_size, -1]))
-                else:
-                    cores_new.append(core)
-            result = TT(cores_new)
+                k = int(round(math.log(core.shape[1], mode_size)))
+                shape_new += [mode_size] * k if k >= 1 else [core.shape[1]]
+            # reshape() orthogonalizes first, so that the truncation is relative to the norm of the whole tensor
+            result = torchtt._extras.reshape(self, shape_new, eps, rmax)
 
         return result
 
